@@ -1,9 +1,9 @@
-\* generated by hand-written template (see harness/props/c04.notes.md); deviations on = none
+\* deviations on = none   (template: harness/props/c04.notes.md)
 SPECIFICATION Spec
 CONSTANTS
   Real = FALSE
   CharSigned = TRUE
-  Families = {"bin", "un", "cast", "cond", "unev", "nest"}
+  Families = {"bin", "un", "cast", "cond", "unev", "nest", "num", "addr"}
   Level = 1
   Dev_LogicalReturnsOperand = FALSE
   Dev_BoolCastTruncates = FALSE
@@ -12,5 +12,6 @@ CONSTANTS
   Dev_UnevaluatedOperandFolded = FALSE
   Dev_NoDivisionGuard = FALSE
   Dev_CondSameTypeNoPromotion = FALSE
+  Dev_BareAddressMinusRejected = FALSE
 INVARIANTS Inv_Refines Inv_Count
 CHECK_DEADLOCK FALSE
